@@ -246,14 +246,14 @@ def worker(job):
     if prop in ('C02', 'C12'):
         snaps = tr.snaps
         keep = [sn for i, sn in enumerate(snaps) if sn['label'] in ('end_exploration', 'set_discard', 'resume') or i % max(1, len(snaps) // extras.get('max_snaps', 20)) == 0 or i == len(snaps) - 1]
-        n_est = estim_compare(tr, keep, tmp, prop='C02')
+        n_est = estim_compare(tr, keep, tmp, prop=prop)
     if prop in ('C02', 'C03', 'C12'):
-        n_rows = posterior_checks(tr, s)
+        n_rows = posterior_checks(tr, s, prop_rows='C03' if prop != 'C12' else 'C12', prop_w='C02' if prop != 'C12' else 'C12')
         if s.explored:
             v0 = bool(s._discard_exploration)
             try:
                 s.discard_exploration = not v0
-                n_rows += posterior_checks(tr, s)
+                n_rows += posterior_checks(tr, s, prop_rows='C03' if prop != 'C12' else 'C12', prop_w='C02' if prop != 'C12' else 'C12')
                 s.discard_exploration = v0
             except Exception as e:     # noqa
                 tr.fail('C12', 'toggling discard_exploration raised %s' % type(e).__name__)
@@ -303,7 +303,9 @@ def c10_direct(tr, s):
     cfg = tr.cfg
     if prob.calls != s.n_like:
         tr.fail('C10', 'n_like=%d but the likelihood was called %d times' % (s.n_like, prob.calls))
-    for (a, b, ret, lim, timeout) in tr.returns:
+    for (a, b, ret, lim, timeout, pred) in tr.returns:
+        if ret != pred:
+            tr.fail('C10', 'run(n_like_max=%s) returned %s at n_like=%d but (explored and all shells >= n_shell and n_eff >= target) is %s' % (lim, ret, b, pred))
         if (b - a) % cfg['n_batch'] != 0:
             tr.fail('C10', 'a run() call advanced n_like by %d, not a multiple of the batch size %d' % (b - a, cfg['n_batch']))
         if a >= lim and b != a:
@@ -314,12 +316,6 @@ def c10_direct(tr, s):
             tr.fail('C10', 'run(timeout=0) evaluated %d points' % (b - a))
         if not ret and b < lim and timeout != 0.0:
             tr.fail('C10', 'run() returned False at %d evaluations although the limit %d was not reached' % (b, lim))
-    # return value of the last call against the predicate
-    if tr.returns:
-        with np.errstate(all='ignore'):
-            pred = bool(s.explored and np.all(np.asarray(s.shell_n) >= cfg['n_shell']) and s.n_eff >= cfg['n_eff'])
-        if tr.returns[-1][2] != pred:
-            tr.fail('C10', 'run() returned %s but (explored and all shells >= n_shell and n_eff >= target) is %s' % (tr.returns[-1][2], pred))
 
 
 def c12_direct(tr, s):
@@ -357,8 +353,21 @@ def run_family(run: Run, prop, n_runs, forces=None, extras=None):
         force.setdefault('max_seconds', 14 if run.tier == 'quick' else 40)
         cfg = T.make_config(rng, i, run.tier, force)
         jobs.append((cfg, prop, extras))
-    with Pool(16) as pool:
-        results = pool.map(worker, jobs, chunksize=1)
+    # watchdog: a run() that never returns must not hang the check
+    limit = 6 * max(j[0].get('max_seconds', 14) for j in jobs) + 90
+    pool = Pool(16)
+    asyncs = [pool.apply_async(worker, (j,)) for j in jobs]
+    results = []
+    t_end = time.time() + limit
+    for j, a in zip(jobs, asyncs):
+        try:
+            results.append(a.get(timeout=max(1.0, t_end - time.time())))
+        except Exception as e:     # noqa  (multiprocessing.TimeoutError or a worker crash)
+            results.append(dict(cfg=j[0], hung='%s' % type(e).__name__))
+    pool.terminate()
+    pool.join()
+    hung = [r for r in results if 'hung' in r]
+    results = [r for r in results if 'hung' not in r]
     tot = {}
     crashed = [r for r in results if 'crashed' in r]
     good = [r for r in results if 'crashed' not in r]
@@ -380,6 +389,9 @@ def run_family(run: Run, prop, n_runs, forces=None, extras=None):
                                             vectorized=_count(good, 'vectorized'), prior_object=_count(good, 'prior_object'), pool_s=_count(good, 'pool_s'), pool_l=_count(good, 'pool_l'),
                                             periodic=_count(good, 'periodic')),
                    samples=[dict(config={k: v for k, v in good[0]['cfg'].items() if k != 'neural_network_kwargs'}, first_events=good[0]['sample_events'])] if good else [])
+    if hung:
+        run.violation('a traced sampler run did not come back within %d s (run() spins or hangs): %d of %d runs' % (limit, len(hung), len(jobs)),
+                      dict(kind='direct', config=hung[0]['cfg'], what='run() does not return', n_failures=len(hung)), True, key='%s:hang' % prop)
     if crashed:
         run.violation('traced run crashed in the harness (fail closed): ' + crashed[0]['crashed'][-600:], dict(kind='harness', config=crashed[0]['cfg'], broken='trace harness'), False)
     if direct:
